@@ -479,5 +479,11 @@ def extra_checks(ctx, cases, impl_lines, model_lines):
             return False
         except Exception:
             return False
-    return xcheck.borrow(ctx, "C09", "a width spec on a date / group / MDC formatter", spec_on_date_or_group, n=900)
+    res = xcheck.borrow(ctx, "C09", "a width spec on a date / group / MDC formatter", spec_on_date_or_group, n=900)
+    if res:
+        return res
+    # aligned / truncated fields whose text comes from a message that, while it is formatted, has ANOTHER record
+    # encoded on the same thread (with aligned fields of its own), or that fails half-way: C09's modes 6 and 9
+    return xcheck.borrow(ctx, "C09", "an aligned / truncated field around a message that logs or fails while it is formatted",
+                         lambda c: c[0] in (6, 9), n=400, seed_salt=23)
 
